@@ -24,7 +24,8 @@ def OPTS := ["allexport", "clobber", "errexit", "glob", "hashondefinition", "ign
 def DIRS := ["/d1", "/d2", "/d1/s"]
 def MASKS := ["022", "027", "077"]
 def FILES := ["f1", "f2"]
-def FDS := ["3", "4", "5"]
+def FDS := ["3", "4", "5", "20"]
+def LIMITS := ["16", "18", "unlimited"]
 
 /-- conditions the `trap` / `raise` ops range over (TSTP/TTIN/TTOU are only watched) -/
 def opConds : List String := ["EXIT", "INT", "QUIT", "TERM", "URG", "USR1"]
@@ -67,6 +68,7 @@ def parseOp (t : String) : Option Op :=
     let c ← parseCond s
     if c = 0 then none else pure (.raise c)
   | ["bg"] => some .bg
+  | ["nofile", v] => do guardIn v LIMITS; pure (.nofile v)
   | ["exit", n] => do guardIn n ["0", "3", "7"]; pure (.exit (← n.toNat?))
   | _ => none
 
